@@ -325,7 +325,9 @@ class FaultOracle(Oracle):
             )
         if exp["raise"] is not None and exc is not None:
             gi = exp["raise"]["group"]
-            if exp["raise"]["type"] == "PreconditionerValueError" and type(exc).__name__ != "PreconditionerValueError":
+            from distributed_shampoo.shampoo_types import PreconditionerValueError
+
+            if exp["raise"]["type"] == "PreconditionerValueError" and not isinstance(exc, PreconditionerValueError):
                 raise run.violation("nonfinite_not_rejected", gi, exc_type=type(exc).__name__, exc=str(exc)[:200], **ctx)
             if exp["raise"]["why"] == "tolerance_exceeded":
                 run.probes["tolerance_exceeded"] += 1
